@@ -13,8 +13,8 @@ pub struct WpCase {
     pub ps: ProblemSpec,
 }
 
-/// frozen envelope for the 95th percentile of iteration counts (calibrated on the pinned tree: p95 = 13..14)
-pub const P95_ENVELOPE: u32 = 22;
+/// frozen envelope for the 95th percentile of iteration counts (calibrated on the repaired pinned tree: p95 = 18)
+pub const P95_ENVELOPE: u32 = 27;
 /// required fraction of Solved verdicts
 pub const REQUIRED_SOLVED: f64 = 0.995;
 
@@ -31,6 +31,7 @@ pub fn gen_wp(t: &mut Tape, nmax: usize, mmax: usize) -> WpCase {
         magnitude: 3.0,
         near_prob: 0.0,
         extreme_alpha: false,
+        full_rank: true,
     };
     let n = t.usize_in(1, nmax);
     // bigger cone lists for bigger problems
@@ -86,8 +87,8 @@ pub fn run(run: &mut PropRun) {
     };
     let quick = run.cfg.quick();
     let (nmax, mmax) = if quick { (25, 50) } else { (60, 120) };
-    run.suite(Suite { name: "wellposed-small", cases: run.cfg.n(12_000, 200_000), tape_len: 2500, gen: &|t| gen_wp(t, 10, 24), check: &check });
-    run.suite(Suite { name: "wellposed", cases: run.cfg.n(3_000, 60_000), tape_len: 30_000, gen: &|t| gen_wp(t, nmax, mmax), check: &check });
+    run.suite(Suite { name: "wellposed-small", cases: run.cfg.n(30_000, 400_000), tape_len: 2500, gen: &|t| gen_wp(t, 10, 24), check: &check });
+    run.suite(Suite { name: "wellposed", cases: run.cfg.n(6_000, 80_000), tape_len: 30_000, gen: &|t| gen_wp(t, nmax, mmax), check: &check });
     let obs = obs.into_inner().unwrap();
     let ntot = obs.len() as f64;
     let nsolved = obs.iter().filter(|o| o.status == SolverStatus::Solved).count() as f64;
